@@ -69,7 +69,10 @@ class MServer(object):
             a["anonymous-storage-NURLs"] = list(self.nurls)
         if self.certs:
             a["grid-manager-certificates"] = [
-                {"certificate": c[1].decode("utf-8"), "signature": b32(c[2]).decode("ascii")} for c in self.certs]
+                {"certificate": c[1].decode("utf-8"),
+                 # an "unparseable" entry: a signature string that is not base32 at all
+                 "signature": b32(c[2]).decode("ascii") if c[0] != "unparseable" else "!" + b32(c[2]).decode("ascii")[1:]}
+                for c in self.certs]
         return a
 
     def permitted(self, configured, now_us):
@@ -77,6 +80,8 @@ class MServer(object):
         if not configured:
             return True
         for kind, cert, sig, subject, exp in self.certs:
+            if kind == "unparseable":
+                continue            # grants nothing and hides nothing (the server's other certificates still count)
             if any(raw_verify(k.raw_pub, sig, cert) for k in configured) and subject == self.key.pub_s and exp > now_us:
                 return True
         return False
@@ -509,7 +514,7 @@ def run(ck):
             for s in servers:
                 for _ in range(rng.choice([0, 1, 1, 2, 3])):
                     kind = rng.choice(["valid", "valid", "soon", "soon", "expired", "other-server", "foreign-signer",
-                                       "tampered", "sig-flipped"])
+                                       "tampered", "sig-flipped", "unparseable"])
                     signer = rng.choice(configured) if configured else foreign
                     subject = s.key.pub_s
                     exp = T0 + horizon + 2 * rng.randrange(1, 10 ** 9)
